@@ -346,6 +346,24 @@ let do_al args =
   | ["d"; cap; hx] -> show (K.alphabet_parse (nat_of_int (int_of_string cap)) (if hx = "-" then [] else bytes_of_hex hx))
   | _ -> "badcase"
 
+(* ---- range codec (C12):  rg <hex block>  |  rgd <n> <hex stream> ---- *)
+let show_rd = function
+  | K.ROk d -> "D:" ^ (if d = [] then "-" else hex_of_bytes d)
+  | K.RInvalid -> "D:invalid"
+  | K.RPanic -> "D:panic"
+let do_rg args =
+  match args with
+  | [hx] ->
+    let blk = bytes_of_hex hx in
+    (match K.range_encode blk with
+     | None -> "E:err"
+     | Some out -> "E:" ^ (if out = [] then "-" else hex_of_bytes out) ^ " " ^ show_rd (K.range_decode (nat_of_int (List.length blk)) out))
+  | _ -> "badcase"
+let do_rgd args =
+  match args with
+  | [n; hx] -> show_rd (K.range_decode (nat_of_int (int_of_string n)) (if hx = "-" then [] else bytes_of_hex hx))
+  | _ -> "badcase"
+
 (* ---- FPAQ (C12):  fp <hex data> ; <hex stream or -> ---- *)
 let do_fp line =
   match split_on_semis line with
@@ -406,6 +424,8 @@ let dispatch line =
   | "zr" :: _ -> do_zr line
   | "sb" :: _ -> do_sb line
   | "al" :: args -> do_al args
+  | "rg" :: args -> do_rg args
+  | "rgd" :: args -> do_rgd args
   | "fp" :: _ -> do_fp line
   | "ct" :: _ -> do_ct line
   | "xx" :: args -> do_xx args
